@@ -239,7 +239,11 @@ class AtomSelection:
         common_k = set(self._arrays.keys()).intersection(set(other._arrays.keys()))
         ans._arrays = {}
         for k in common_k:
-            ans._arrays[k] = np.concatenate((self._arrays[k], other._arrays[k]))
+            # One value per selected atom: self's value for the atoms it
+            # holds, other's value for the rest
+            values = dict(zip(other.indices, other._arrays[k]))
+            values.update(zip(self.indices, self._arrays[k]))
+            ans._arrays[k] = np.array([values[i] for i in ans._indices])
 
         return ans
 
